@@ -179,9 +179,9 @@ static Bytes build_pass(const PassDef &pd, size_t base) {
 }
 
 // program encoding in Fault.a (OVR_SILFPROG): [np, nsub, numUser, ijust_is_np, rtl, then per pass: maxloop, nrules, per rule: len, match[len], conslen, cons[conslen], alen, action[alen]]
-struct SynthHdr { unsigned flags = 0; std::vector<unsigned> just; unsigned nlb = 0; };   // nlb: the first nlb passes are line-break passes (iSubst = nlb)   // Silf flags byte (bit 0: line-end contextuals), justification levels (4 attribute numbers each)
+struct SynthHdr { bool badlb = false; unsigned flags = 0; std::vector<unsigned> just; unsigned nlb = 0; };   // nlb: the first nlb passes are line-break passes (iSubst = nlb)   // Silf flags byte (bit 0: line-end contextuals), justification levels (4 attribute numbers each)
 static void encode_prog(const std::vector<PassDef> &passes, unsigned nsub, unsigned numUser, bool ijust_np, bool rtl, const SynthHdr &h, std::vector<i64> &a) {
-    a = {i64(passes.size()), i64(nsub), i64(numUser), ijust_np ? 1 : 0, rtl ? 1 : 0, i64(h.flags), i64(h.just.size() / 4)};
+    a = {i64(passes.size()), i64(nsub), i64(numUser), ijust_np ? 1 : 0, rtl ? 1 : 0, i64(h.flags | (h.badlb ? 2u : 0u)), i64(h.just.size() / 4)};
     for (unsigned v : h.just) a.push_back(v);
     a.push_back(h.nlb);
     for (auto &pd : passes) { a.push_back(i64(pd.maxloop | (pd.prectx << 8) | (pd.pcons.empty() ? 0u : 0x400u))); a.push_back(i64(pd.rules.size()));
@@ -192,7 +192,7 @@ static bool decode_prog(const std::vector<i64> &a, std::vector<PassDef> &passes,
     size_t i = 0; auto get = [&](i64 &v) { if (i >= a.size()) return false; v = a[i++]; return true; };
     i64 np, v; if (!get(np) || np < 1 || np > 16) return false; if (!get(v)) return false; nsub = unsigned(v < 0 ? 0 : v > np ? np : v); if (!get(v)) return false; numUser = unsigned(v & 7);
     if (!get(v)) return false; ijust_np = v != 0; if (!get(v)) return false; rtl = v != 0;
-    if (!get(v)) return false; h.flags = unsigned(v & 1); i64 nj; if (!get(nj) || nj < 0 || nj > 3) return false; for (i64 q = 0; q < 4 * nj; ++q) { if (!get(v)) return false; h.just.push_back(unsigned(v & 0xFF)); }
+    if (!get(v)) return false; h.flags = unsigned(v & 1); h.badlb = (v & 2) != 0;   // bit 1: the line-end glyph id names no glyph of the font i64 nj; if (!get(nj) || nj < 0 || nj > 3) return false; for (i64 q = 0; q < 4 * nj; ++q) { if (!get(v)) return false; h.just.push_back(unsigned(v & 0xFF)); }
     if (!get(v)) return false; h.nlb = unsigned(v < 0 ? 0 : v); if (h.nlb > nsub) h.nlb = nsub;
     for (i64 p = 0; p < np; ++p) { PassDef pd; i64 nr; if (!get(v)) return false; pd.maxloop = unsigned(v & 0xFF); pd.prectx = unsigned((v >> 8) & 3); const bool haspc = (v & 0x400) != 0; if (!get(nr) || nr < 1 || nr > 32) return false;
         if (haspc) { i64 pl; if (!get(pl) || pl < 0 || pl > 250) return false; for (i64 q = 0; q < pl; ++q) { if (!get(v)) return false; pd.pcons.push_back(u8(v)); } }
@@ -249,7 +249,7 @@ static void gen_prog(u64 seed, std::vector<i64> &out) {
         }
         passes.push_back(pd);
     }
-    SynthHdr h; if (r.chance(1, 3)) h.flags = 1; if (r.chance(1, 4)) h.nlb = r.below(nsub + 1); if (r.chance(1, 3)) { unsigned nj = 1 + r.below(2); for (unsigned q = 0; q < 4 * nj; ++q) h.just.push_back(r.below(6)); }
+    SynthHdr h; if (r.chance(1, 3)) { h.flags = 1; h.badlb = r.chance(1, 5); } if (r.chance(1, 4)) h.nlb = r.below(nsub + 1); if (r.chance(1, 3)) { unsigned nj = 1 + r.below(2); for (unsigned q = 0; q < 4 * nj; ++q) h.just.push_back(r.below(6)); }
     encode_prog(passes, nsub, numUser, r.chance(1, 2), r.chance(1, 4), h, out);
 }
 
@@ -277,7 +277,7 @@ void silf_override(Store &st, const Fault &f) {
         for (size_t k = 0; k + 3 < hdr.just.size(); k += 4) { for (int q = 0; q < 4; ++q) w8(s, hdr.just[k + size_t(q)] % nattrs); w8(s, 0); w8(s, 0); w8(s, 0); w8(s, 0); }
     }
     w16(s, 0); w8(s, numUser); w8(s, 0); w8(s, rtl ? 2 : 1); w8(s, 0); w8(s, 0); w8(s, 0); w8(s, 0); w8(s, 0); w8(s, 0); w8(s, 0);
-    w16(s, nglyphs - 1);
+    w16(s, hdr.badlb ? 0xFFFF : nglyphs - 1);    // line-break glyph id
     const size_t o_passes = s.size(); for (unsigned i = 0; i <= np; ++i) w32(s, 0);
     w16(s, 0); w16(s, 0); w16(s, 0); w16(s, 0);
     // class map: NGLYPH_USED linear classes, class c = { glyph c+1 }
